@@ -427,7 +427,7 @@ def gen_fit_inputs(rng, n, max_N=(6, 4, 3), combos=None):
         N = len(cr.numbers)
         nb = sum(sizes.values())
         n_snap = int(np.ceil(3.0 * nb / (3 * N))) + 4
-        if k % 3 == 2:
+        if (k + k // len(combos)) % 3 == 2 or rng.random() < 0.15:
             # "long dataset" stream: more snapshots than the solvers' default batch size (100), with a remainder, so
             # that the snapshot-batch loop of EVERY solver (also those the API gives no batch_size) runs unequal batches
             n_snap = max(n_snap, rng.choice([101, 130, 137]))
